@@ -1,4 +1,4 @@
-import Proofs.Descend
+import Proofs.GraftHole
 /-! What the level-by-level descent means in terms of the finite map `T.entries`:
     `descend` finds `b` for `stems` iff `(pre ++ stems, b)` is an entry; hence `lru_node` is the map
     look-up, no LRU is stored twice, every node is exactly one entry; `follow_lru` finds the same node and
@@ -8,16 +8,6 @@ namespace Traph
 open State
 
 /-! ### `Nodup` of a node, `childAt` of a node -/
-
-theorem T.nodup_node {a : Nat} {l c r : T} (h : (T.node a l c r).addrs.Nodup) :
-    a ∉ l.addrs ∧ a ∉ c.addrs ∧ a ∉ r.addrs ∧ l.addrs.Nodup ∧ c.addrs.Nodup ∧ r.addrs.Nodup ∧
-    (∀ x ∈ l.addrs, x ∉ c.addrs) ∧ (∀ x ∈ l.addrs, x ∉ r.addrs) ∧ (∀ x ∈ c.addrs, x ∉ r.addrs) := by
-  simp only [T.addrs, List.nodup_cons, List.nodup_append, List.mem_append, not_or] at h
-  obtain ⟨⟨⟨h1, h2⟩, h3⟩, ⟨hl, hc, hlc⟩, hr, hlcr⟩ := h
-  refine ⟨h1, h2, h3, hl, hc, hr, ?_, ?_, ?_⟩
-  · intro x hx hx'; exact hlc x hx x hx' rfl
-  · intro x hx hx'; exact hlcr x (Or.inl hx) x hx' rfl
-  · intro x hx hx'; exact hlcr x (Or.inr hx) x hx' rfl
 
 theorem T.childAt_node_self (b : Nat) (l c r : T) : (T.node b l c r).childAt b = c := by
   simp [T.childAt]
